@@ -138,9 +138,16 @@ impl QuicConnector {
     }
 
     async fn get_connection(self: &Arc<Self>) -> Result<QuicConn, Error> {
+        let existing = self.connection.lock().await.clone();
+        if let Some(c) = existing {
+            return Ok(c);
+        }
+        // connect without holding the lock: an unreachable upstream must not park every
+        // request of this connector behind a single connection attempt
+        let conn = self.create_connection().await?;
         let mut c = self.connection.lock().await;
         if c.is_none() {
-            *c = Some(self.create_connection().await?);
+            *c = Some(conn);
         }
         Ok(c.clone().unwrap())
     }
